@@ -187,10 +187,13 @@ def apply_rule(rule, doc, src, q):
         HC[_first(HC)][u.HOST_VALUE] = 'much'
     elif kind == 'host_value_contradicts_sensitive':
         sk, hk = _sens_host_with_cfg(doc)
-        v = src.real('bad_host_value', -1000, 1000)
+        # both the declared value (any size up to 10^6) and the contradicting one are symbolic;
+        # they differ by at least 1: far outside any floating-point tolerance
+        decl = src.real('declared_value', 1, 1000000)
+        v = src.real('bad_host_value', -1000000, 1000000)
+        SH[sk] = decl
         if src.symbolic:
-            # differs from the declared value by at least 1: far outside isclose()'s tolerance
-            d = sx.znum(v) - sx._coerce(sx.znum(SH[sk]), sx.znum(v))[0]
+            d = sx.znum(v) - sx.znum(decl)
             sx.assume(z3.Or(d >= 1, d <= -1))
         HC[hk][u.HOST_VALUE] = v
     elif kind == 'fw_missing_rule':
